@@ -1,8 +1,8 @@
 CONSTANTS MaxCtx = 2
           BufSize = 4
-          BlankShortcut = FALSE
+          BlankShortcut = TRUE
           MaxRecords = 2
 INIT SLInit
 NEXT SLNext
-INVARIANTS BufferedReadsBack ReadsBack NoRawBreakInRecord SummaryCountsOnce
+INVARIANTS BufferedReadsBack
 CHECK_DEADLOCK FALSE
